@@ -164,8 +164,8 @@ def permuted_dict(d, rng):
 def setup(concepts, spec):
     cap = CAP[spec['tier']]
     attach.attach_ctor(concepts)
-    for owner, name, mon in [(concepts.lattices.Data, '__init__', InitHook(cap)),
-                             (concepts.lattices.Data, '_fromlist', FromlistHook(cap))]:
+    for owner, name, mon in [(concepts.lattices.Lattice, '__init__', InitHook(cap)),
+                             (concepts.lattices.Lattice, '_fromlist', FromlistHook(cap))]:
         try:
             attach.attach(owner, name, mon)
         except (KeyError, core.HarnessError):
